@@ -8,17 +8,41 @@ Local Open Scope positive_scope.
 Fixpoint ops_sided (col : id -> bool) (s : bool) (h : heap) (l : list op) : Prop :=
   match l with
   | [] => True
-  | o :: r => op_sided col s h o /\ ops_sided col s (fst (apply_op h o)) r
+  | o :: r => (op_sided col s h o /\ op_refs_ok h o) /\ ops_sided col s (fst (apply_op h o)) r
+  end.
+
+(* no operation of the history renames a tensor object (Value.name on a value that has a const_value tensor) *)
+Fixpoint ops_no_trename (h : heap) (l : list op) : Prop :=
+  match l with
+  | [] => True
+  | o :: r => renames_tensor h o = false /\ ops_no_trename (fst (apply_op h o)) r
   end.
 
 Lemma apply_ops_step col s l : forall h,
-  inv col s h -> ops_sided col s h l -> inv col s (apply_ops h l) /\ frame col s h (apply_ops h l).
+  inv col s h -> ops_sided col s h l -> ops_no_trename h l ->
+  inv col s (apply_ops h l) /\ frame col s h (apply_ops h l).
+Proof.
+  induction l as [|o r IH]; intros h I Hs Hn; simpl.
+  - split; [exact I|apply frame_refl].
+  - destruct Hs as [[H1 H1'] H2]. destruct Hn as [N1 N2]. destruct (apply_op h o) as [h1 r1] eqn:E. simpl in *.
+    destruct (apply_op_step col s h o h1 r1 I H1 H1' N1 E) as [I1 F1].
+    destruct (IH h1 I1 H2 N2) as [I2 F2]. split; [exact I2|eapply frame_trans; eassumption].
+Qed.
+
+Lemma frame_nt_trans col s a b c : frame_nt col s a b -> frame_nt col s b c -> frame_nt col s a c.
+Proof.
+  intros [H1 H2] [H3 H4]. split; [lia|]. intros x Hx Hnt.
+  rewrite H4; [apply H2; assumption|exact Hx|rewrite H2; assumption].
+Qed.
+
+Lemma apply_ops_step_nt col s l : forall h,
+  inv col s h -> ops_sided col s h l -> inv col s (apply_ops h l) /\ frame_nt col s h (apply_ops h l).
 Proof.
   induction l as [|o r IH]; intros h I Hs; simpl.
-  - split; [exact I|apply frame_refl].
-  - destruct Hs as [H1 H2]. destruct (apply_op h o) as [h1 r1] eqn:E. simpl in *.
-    destruct (apply_op_step col s h o h1 r1 I H1 E) as [I1 F1].
-    destruct (IH h1 I1 H2) as [I2 F2]. split; [exact I2|eapply frame_trans; eassumption].
+  - split; [exact I|]. split; [lia|reflexivity].
+  - destruct Hs as [[H1 H1'] H2]. destruct (apply_op h o) as [h1 r1] eqn:E. simpl in *.
+    destruct (apply_op_step_nt col s h o h1 r1 I H1 H1' E) as [I1 F1].
+    destruct (IH h1 I1 H2) as [I2 F2]. split; [exact I2|eapply frame_nt_trans; eassumption].
 Qed.
 
 (* the two sides after a clone: everything allocated from n0 on (and later) is the clone's side ... *)
@@ -62,41 +86,63 @@ Section AfterClone.
 
   (* edits of the clone leave every cell of the original as it was before the clone *)
   Lemma clone_edits_frame ops :
-    ops_sided (col_clone n0) true (hp st) ops ->
+    ops_sided (col_clone n0) true (hp st) ops -> ops_no_trename (hp st) ops ->
     forall x, x < n0 -> cells (apply_ops (hp st) ops) x = cells h0 x.
   Proof.
-    intros Hs x Hx. destruct (apply_ops_step _ _ ops _ clone_inv_clone_side Hs) as [_ [_ F]].
+    intros Hs Hn x Hx. destruct (apply_ops_step _ _ ops _ clone_inv_clone_side Hs Hn) as [_ [_ F]].
     rewrite F.
     - apply (old_cell _ _ _ _ _ G Hx).
     - unfold col_clone. destruct (Pos.leb_spec n0 x); [lia|discriminate].
   Qed.
 
   (* edits of the original leave every cell created by the clone as the clone made it *)
-  Lemma orig_edits_frame ops :
+  (* with tensor renames allowed: every cell of the original that is not a tensor object is as before the clone *)
+  Lemma clone_edits_frame_nt ops :
+    ops_sided (col_clone n0) true (hp st) ops ->
+    forall x, x < n0 -> is_tensor (cells h0 x) = false -> cells (apply_ops (hp st) ops) x = cells h0 x.
+  Proof.
+    intros Hs x Hx Hnt. destruct (apply_ops_step_nt _ _ ops _ clone_inv_clone_side Hs) as [_ [_ F]].
+    rewrite F.
+    - apply (old_cell _ _ _ _ _ G Hx).
+    - unfold col_clone. destruct (Pos.leb_spec n0 x); [lia|discriminate].
+    - rewrite (old_cell _ _ _ _ _ G Hx). exact Hnt.
+  Qed.
+
+  Lemma orig_edits_frame_nt ops :
     ops_sided (col_orig n0 (next (hp st))) true (hp st) ops ->
+    forall x, n0 <= x -> x < next (hp st) -> is_tensor (cells (hp st) x) = false ->
+              cells (apply_ops (hp st) ops) x = cells (hp st) x.
+  Proof.
+    intros Hs x Hx1 Hx2 Hnt. destruct (apply_ops_step_nt _ _ ops _ clone_inv_orig_side Hs) as [_ [_ F]].
+    apply F; [|exact Hnt]. unfold col_orig. destruct (Pos.ltb_spec x n0); [lia|].
+    destruct (Pos.leb_spec (next (hp st)) x); [lia|]. discriminate.
+  Qed.
+
+  Lemma orig_edits_frame ops :
+    ops_sided (col_orig n0 (next (hp st))) true (hp st) ops -> ops_no_trename (hp st) ops ->
     forall x, n0 <= x -> x < next (hp st) -> cells (apply_ops (hp st) ops) x = cells (hp st) x.
   Proof.
-    intros Hs x Hx1 Hx2. destruct (apply_ops_step _ _ ops _ clone_inv_orig_side Hs) as [_ [_ F]].
+    intros Hs Hn x Hx1 Hx2. destruct (apply_ops_step _ _ ops _ clone_inv_orig_side Hs Hn) as [_ [_ F]].
     apply F. unfold col_orig. destruct (Pos.ltb_spec x n0); [lia|]. destruct (Pos.leb_spec (next (hp st)) x); [lia|].
     discriminate.
   Qed.
 
   (* hence every observation of the original is unchanged by edits of the clone *)
   Lemma clone_edits_canon ops k g :
-    ops_sided (col_clone n0) true (hp st) ops -> g < n0 ->
+    ops_sided (col_clone n0) true (hp st) ops -> ops_no_trename (hp st) ops -> g < n0 ->
     gcanon (cells (apply_ops (hp st) ops)) k g = gcanon (cells h0) k g.
   Proof.
-    intros Hs Hg. apply (gcanon_st _ _ (fun x => x < n0)).
+    intros Hs Hn Hg. apply (gcanon_st _ _ (fun x => x < n0)).
     - intros x c _ Hc y Hy. apply (proj2 (Hcl0 _ _ Hc)), Hy.
     - intros x Hx. apply clone_edits_frame; assumption.
     - exact Hg.
   Qed.
 
   Lemma clone_edits_mcanon ops k m :
-    ops_sided (col_clone n0) true (hp st) ops -> m < n0 ->
+    ops_sided (col_clone n0) true (hp st) ops -> ops_no_trename (hp st) ops -> m < n0 ->
     mcanon (cells (apply_ops (hp st) ops)) k m = mcanon (cells h0) k m.
   Proof.
-    intros Hs Hg. apply (mcanon_st _ _ (fun x => x < n0)).
+    intros Hs Hn Hg. apply (mcanon_st _ _ (fun x => x < n0)).
     - intros x c _ Hc y Hy. apply (proj2 (Hcl0 _ _ Hc)), Hy.
     - intros x Hx. apply clone_edits_frame; assumption.
     - exact Hg.
@@ -107,7 +153,7 @@ End AfterClone.
 Lemma functional_pass_frame fuel prog m h0 h' r :
   closed h0 -> m < next h0 ->
   (forall st m', model_clone fuel false m h0 = (st, Ok m') ->
-                 ops_sided (col_clone (next h0)) true (hp st) (prog m')) ->
+                 ops_sided (col_clone (next h0)) true (hp st) (prog m') /\ ops_no_trename (hp st) (prog m')) ->
   functional_pass fuel prog m h0 = (h', r) ->
   forall x, x < next h0 -> cells h' x = cells h0 x.
 Proof.
@@ -115,7 +161,7 @@ Proof.
   destruct (model_clone fuel false m h0) as [st [m'|e]] eqn:E.
   - injection H as <- _.
     destruct (model_clone_ok false h0 Hcl fuel _ _ _ _ (good_init false false h0 Hcl) Hm E) as [G _].
-    apply (clone_edits_frame false false h0 Hcl st G (prog m') (Hp st m' eq_refl) x Hx).
+    apply (clone_edits_frame false false h0 Hcl st G (prog m') (proj1 (Hp st m' eq_refl)) (proj2 (Hp st m' eq_refl)) x Hx).
   - injection H as <- _. apply mono_model_clone_m in E. destruct E as [[_ K] _]. apply K. exact Hx.
 Qed.
 
